@@ -254,6 +254,9 @@ func (h *harness) runCase(ci int) {
 		// the generator only emits transactions that are valid by construction
 		panic(fmt.Sprintf("case %d: %v", ci, err))
 	}
+	for k, v := range s.lcStats {
+		r.Count(k, v)
+	}
 	scheme := pick(rng, []string{rawdb.HashScheme, rawdb.PathScheme})
 	snaps := rng.Intn(2) == 0
 	bcPar, err := newChain(s, scheme, false, snaps)
@@ -268,7 +271,7 @@ func (h *harness) runCase(ci int) {
 	defer bcSeq.Stop()
 	ctx := context.Background()
 	nSched := r.N(5, 8)
-	nMut := r.N(4, 12)
+	nMut := r.N(3, 12)
 	if r.Race() {
 		nSched, nMut = 3, 3
 	}
@@ -325,6 +328,15 @@ func (h *harness) runCase(ci int) {
 			return
 		}
 		seq := outcomeOf(bcSeq, block, stSeq, resSeq)
+		// observed end-of-block class of every access-list account (parent state vs sequential post-state)
+		stPre, err := bcSeq.StateAt(parent)
+		if err != nil {
+			panic(err)
+		}
+		classes := classifyAccounts(r, stPre, stSeq, mirror)
+		if classes.mask != "" {
+			r.Count("blocks_with_account_lifecycle_classes_"+classes.mask, 1)
+		}
 		cleanup()
 		if seq.ValErr != "" {
 			r.Violation("sequential-validate-rejects-true-block", "ValidateState (sequential) rejects the true block: "+seq.ValErr, witness(nil))
@@ -356,7 +368,7 @@ func (h *harness) runCase(ci int) {
 			runtime.GOMAXPROCS(h.baseProcs)
 			hits := mon.ctrl.Hits()
 			assign, nWorkers := mon.assignment()
-			sig := fmt.Sprintf("par/pat=%s/ntx=%s/procs=%d/stacked=%v/workers=%d", patMask(s.patterns), bucket(nTx), procs, stacked, nWorkers)
+			sig := fmt.Sprintf("par/pat=%s/lc=%s/ntx=%s/procs=%d/stacked=%v/workers=%d", patMask(s.patterns), classes.mask, bucket(nTx), procs, stacked, nWorkers)
 			if err != nil {
 				cleanup()
 				r.Violation("parallel-process-error", fmt.Sprintf("parallel Process fails on the true block (GOMAXPROCS=%d): %v", procs, err), witness(map[string]any{"procs": procs, "stacked": stacked}))
@@ -485,11 +497,13 @@ func (h *harness) runCase(ci int) {
 }
 
 func run(r *vrt.Run) {
-	r.Rule("each case: an Amsterdam chain (1-2 blocks, 2-40 txs) from core.GenerateChain over 6+1 senders, 8 calldata-driven contracts, a 7702-delegated EOA and the system contracts; blocks are random interleavings of directed conflict sequences (read-after-write, write-after-write/net-zero, balance chains, create-then-call, create+selfdestruct, nonce chains, funded sender, 7702, requests, coinbase, reverts, nested frames) and random command lists. Judged: parallel Process vs sequential Process under (GOMAXPROCS, yield seed, reader stack) schedules; InsertChain of forged lists (23 mutation kinds x {body, body+header}) and of the true block. signature = (pattern set, #tx bucket, GOMAXPROCS, reader stack, workers used) resp. (mutation kind, mode, rejecting stage, chain)")
+	r.Rule("each case: an Amsterdam chain (1-2 blocks, 2-40 txs) from core.GenerateChain over 6+1 senders, 8 calldata-driven contracts, a 7702-delegated EOA and the system contracts; blocks are random interleavings of directed conflict sequences (read-after-write, write-after-write/net-zero, balance chains, create-then-call, create+selfdestruct, nonce chains, funded sender, 7702, requests, coinbase, reverts, nested frames), account-lifecycle sequences (an address absent from the parent state, or present with a balance only, is zero-value touched / funded / made a self-destruct beneficiary / hit by a CREATE2 or creation transaction whose init code self-destructs to another account, to itself, to the caller, after storage writes, after paying out, deploys code, deploys nothing, reverts / used / drained / re-created by several transactions; fresh EOAs funded with exactly the cost of their only transaction) and random command lists. Judged: parallel Process vs sequential Process under (GOMAXPROCS, yield seed, reader stack) schedules; InsertChain of forged lists (23 mutation kinds x {body, body+header}) and of the true block. signature = (pattern set, end-of-block account classes reached [a: absent before, absent after, with balance/nonce/code entries in the list; b: present before, removed; c: absent before, non-empty after], #tx bucket, GOMAXPROCS, reader stack, workers used) resp. (mutation kind, mode, rejecting stage, chain)")
 	h := &harness{r: r, sigs: map[uint64]bool{}, assigns: map[string]bool{}, procsSeq: []int{1, 2, 3, 8, 16, 4, 5, 12}, baseProcs: runtime.GOMAXPROCS(0)}
-	n := r.N(150, 3000)
+	// quick: 120 (race: 30) cases since the account-lifecycle family was added (150 / 40 before):
+	// the check ran ~150 CPU-s for both variants together, above the quick budget
+	n := r.N(120, 3000)
 	if r.Race() {
-		n = r.N(40, 300)
+		n = r.N(30, 300)
 	}
 	defer runtime.GOMAXPROCS(runtime.GOMAXPROCS(0))
 	for ci := 0; ci < n; ci++ {
@@ -509,6 +523,23 @@ func run(r *vrt.Run) {
 		r.Require("forged_rejected", int64(n))
 		r.Require("imports_parallel", int64(n))
 		r.Require("distinct_worker_tx_assignments", 5)
+		// account-lifecycle classes observed at the end of the blocks (see classifyAccounts)
+		atLeast := func(v, min int) int64 {
+			if v < min {
+				v = min
+			}
+			return int64(v)
+		}
+		r.Require("lc_sequences", int64(n/2))
+		r.Require("bal_accounts_absent_pre_and_empty_post_with_balance_nonce_code_entries", atLeast(n/15, 2))
+		r.Require("bal_accounts_absent_pre_and_empty_post_read_or_touched_only", int64(n/2))
+		if !r.Race() { // (too few cases in the race variant for the rarer classes)
+			r.Require("bal_accounts_present_pre_and_empty_post", atLeast(n/40, 1))
+			r.Require("bal_accounts_absent_pre_funded_then_drained_to_zero_nonempty_post", atLeast(n/40, 1))
+		}
+		r.Require("bal_accounts_absent_pre_and_nonempty_post", int64(n))
+		r.Require("bal_accounts_absent_pre_and_nonempty_post_contract", int64(n/6))
+		r.Require("bal_accounts_absent_pre_and_nonempty_post_nonce_without_code", int64(n/12))
 	}
 	r.Assume("oracle = sequential execution (core.StateProcessor with DisableParallelExecution) of the same block on a fresh state at the parent root; the block and its access list come from core.GenerateChain (sequential)")
 	r.Assume("the Op contract (h/lib/opvm) and the transaction generator only shape the workload; no expectation about EVM semantics enters the verdict")
